@@ -38,8 +38,11 @@ class DaemonLayer:
             except Exception as e:
                 import traceback
                 V.append(dict(sig='predicate crashed: %s %r' % (pr.__name__, e), detail=traceback.format_exc()[-800:]))
-        if sim['died'] and self.deaths:
-            s = self.deaths(daemon.death_class(sim['stderr']))
+        if sim['died']:
+            cls = daemon.death_class(sim['stderr'])
+            s = self.deaths(cls) if self.deaths else None
+            # a sanitizer report is undefined behaviour of the real code on this very input: a failing input for any property
+            if not s and (cls.startswith('asan') or cls == 'ubsan'): s = 'undefined behaviour in the real code (sanitizer): ' + cls
             if s: V.append(dict(sig=s, at=len(sim['ops']) - 1, detail=sim['stderr'][-1200:]))
         if self.leaks:
             td = sim.get('teardown')
@@ -334,8 +337,11 @@ class MarkerLayer(DaemonLayer):
             except Exception as e:
                 import traceback
                 V.append(dict(sig='predicate crashed: %s %r' % (getattr(pr, '__name__', '?'), e), detail=traceback.format_exc()[-800:]))
-        if sim['died'] and self.deaths:
-            s = self.deaths(daemon.death_class(sim['stderr']))
+        if sim['died']:
+            cls = daemon.death_class(sim['stderr'])
+            s = self.deaths(cls) if self.deaths else None
+            # a sanitizer report is undefined behaviour of the real code on this very input: a failing input for any property
+            if not s and (cls.startswith('asan') or cls == 'ubsan'): s = 'undefined behaviour in the real code (sanitizer): ' + cls
             if s: V.append(dict(sig=s, at=len(sim['ops']) - 1, detail=sim['stderr'][-1200:]))
         for v in V: v['replay'] = dict(layer=self.name, seed=seed, N=N, profile=self.profile, at=v.get('at', len(sim['ops']) - 1), configuration=world.conf_text())
         for d in diffs: d['replay'] = dict(layer=self.name, seed=seed, N=N, profile=self.profile, at=d['at'], configuration=world.conf_text())
